@@ -137,6 +137,22 @@ impl Op {
             ),
         }
     }
+
+    pub(super) fn extract_invalid_key_parameters(
+        &self,
+        parameters: &HashMap<String, Option<Term>>,
+        invalid: &mut Vec<String>,
+    ) {
+        match self {
+            Op::Value(term) => term.extract_invalid_key_parameters(parameters, invalid),
+            Op::Closure(_, ops) => {
+                for op in ops {
+                    op.extract_invalid_key_parameters(parameters, invalid);
+                }
+            }
+            _ => {}
+        }
+    }
 }
 
 impl Convert<datalog::Op> for Op {
